@@ -2,6 +2,9 @@ module verifharness
 
 go 1.21
 
-require github.com/asticode/go-astisub v0.0.0
+require (
+	github.com/asticode/go-astisub v0.0.0
+	github.com/asticode/go-astits v1.8.0
+)
 
 replace github.com/asticode/go-astisub => /repo
